@@ -134,6 +134,35 @@ def knuth_check():
     return float(cond[0])          # ran_u[0], the generator state
 
 
+def seed_sensitivity():
+    """The published generator seeds its lagged-Fibonacci state from the low 30 bits of the seed (Knuth's ranf_start:
+    `seed & 0x3fffffff`): every one of those 30 bits must change the state, bits 30 and above must not.  Checked for the
+    extreme seeds of every dimension (GKLS seeds are (nf-1) + (nmin-1)*100 + dim*1000000)."""
+    bad = []
+    n = 0
+    for d in (2, 5):
+        for k in (1, 100):
+            seed = (k - 1) + 9 * 100 + d * 1000000
+            ref = _state(seed)
+            for bit in range(0, 32):
+                st = _state(seed ^ (1 << bit))
+                n += 1
+                same = bool(np.array_equal(st, ref))
+                if bit < 30 and same:
+                    bad.append("seed %d: flipping bit %d of the seed does not change the generator state" % (seed, bit))
+                if bit >= 30 and not same:
+                    bad.append("seed %d: bit %d (outside the 30-bit seed space) changes the generator state" % (seed, bit))
+    return n, bad
+
+
+def _state(seed):
+    g = GKLSRandomGenerator()
+    rnd_num = np.zeros(GKLSRandomGenerator.NUM_RND, dtype=np.double)
+    cond = np.zeros(GKLSRandomGenerator.KK, dtype=np.double)
+    g.Initialize(seed, rnd_num, cond)
+    return np.array(cond, dtype=np.double)
+
+
 def main():
     req = json.loads(sys.stdin.read() or "{}")
     args = [(d, k, int(req.get("link_points", 60))) for d in range(2, 6) for k in range(1, 101)]
@@ -152,6 +181,11 @@ def main():
     except Exception as e:
         out["knuth_ok"] = False
         out["knuth_error"] = repr(e)
+    try:
+        nn, bad = seed_sensitivity()
+        out["seed_sensitivity"] = {"checked": nn, "failures": bad[:6]}
+    except Exception as e:
+        out["seed_sensitivity"] = {"checked": 0, "failures": ["exception %r" % (e,)]}
     p = GKLS(3, 1)
     out["recorded_value"] = calc(p, [0.9, 0.5, 0.3])
     print(json.dumps(out))
